@@ -94,11 +94,30 @@ func main() {
 		fmt.Fprintln(os.Stderr, "unknown property", id)
 		os.Exit(2)
 	}
+	// second solver: cvc5 answers every n-th query as well (VERIF_CROSS=off disables)
+	engine.CrossKind = "cvc5"
+	engine.CrossEvery = map[string]int{"quick": 32, "thorough": 8}[tier]
+	if s := os.Getenv("VERIF_CROSS"); s != "" {
+		engine.CrossKind = s
+		if s == "off" {
+			engine.CrossKind = ""
+		}
+	}
+	if s := os.Getenv("VERIF_CROSS_EVERY"); s != "" {
+		engine.CrossEvery, _ = strconv.Atoi(s)
+	}
 	seed := 0
 	if s := os.Getenv("VERIF_SEED"); s != "" {
 		seed, _ = strconv.Atoi(s)
 	}
 	os.Exit(runCheck(p, tier, seed))
+}
+
+func crossDesc() string {
+	if engine.CrossKind == "" {
+		return ""
+	}
+	return fmt.Sprintf("; every %d-th query of each worker also answered by %s --incremental (1.0.x) and the verdicts compared", engine.CrossEvery, engine.CrossKind)
 }
 
 func glob(pat, s string) bool {
@@ -310,6 +329,10 @@ func runCheck(p *property, tier string, seed int) int {
 		stats.Queries += ex.Stats.Queries
 		stats.Unknown += ex.Stats.Unknown
 		stats.SolverErrors += ex.Stats.SolverErrors
+		stats.CrossChecked += ex.Stats.CrossChecked
+		stats.CrossUnknown += ex.Stats.CrossUnknown
+		stats.CrossDiffer += ex.Stats.CrossDiffer
+		stats.CrossTime += ex.Stats.CrossTime
 		stats.SolverTime += ex.Stats.SolverTime
 		stats.Steps += ex.Stats.Steps
 		for k, v := range ex.Entered() {
@@ -416,6 +439,9 @@ func runCheck(p *property, tier string, seed int) int {
 	if len(fresh) > 0 {
 		exit = 1
 	}
+	if stats.CrossDiffer > 0 {
+		inconcl = append(inconcl, fmt.Sprintf("%d queries on which z3 and %s disagree (sat vs unsat)", stats.CrossDiffer, engine.CrossKind))
+	}
 	if len(inconcl) > 0 || len(mismatches) > 0 || len(vac) > 0 || stats.SolverErrors > 0 {
 		for _, s := range inconcl {
 			fmt.Println("INCONCLUSIVE:", s)
@@ -467,7 +493,11 @@ func runCheck(p *property, tier string, seed int) int {
 		"obligations_decided_concretely": concreteObl,
 		"traces_validated_against_impl":  validated,
 		"paths_not_natively_validated":   nativeSkip,
-		"checker_cmd":                    "z3 -in (4.8.12), one persistent process per worker",
+		"checker_cmd":                    "z3 -in (4.8.12), one persistent process per worker" + crossDesc(),
+		"cross_solver_queries_agreeing":  stats.CrossChecked,
+		"cross_solver_no_verdict":        stats.CrossUnknown,
+		"cross_solver_disagreements":     stats.CrossDiffer,
+		"cross_solver_time_s":            round2(stats.CrossTime.Seconds()),
 		"trusted_base":                   append([]string{"symgo SSA interpreter (/verif/engine), cross-validated natively on every explored sequential path", "go/ssa v0.29.0", "z3 4.8.12"}, p.Trusted...),
 		"harness_cases":                  caseCount,
 		"path_kinds":                     kinds,
